@@ -13,6 +13,7 @@
  */
 #include "common.h"
 #include "model.h"
+#include <sys/mman.h>
 #include "TinyJAMBU.h"
 #include <sys/wait.h>
 #include <sys/types.h>
@@ -785,6 +786,39 @@ int main(int argc, char **argv)
                   if (mine(&a, idx)) budget_placed(&a, idx, (unsigned long)((1L << PW[pw]) + d), f, LIMS[l], pre);
               } }
         } else if (a.batch == 0) emit_info("near-counter-wrap histories skipped: this build has no RWEATHER_TINYJAMBU_VERIF hook");
+    } else if (!strcmp(a.mode, "hugecustom")) {
+        /* thorough: a personalisation string of 2^32 + 5 bytes (sparse mapping).  Status, number of entropy requests and
+         * the first 96 output bytes against the model (its hash runs with the batch permutation, pinned to the literal one) */
+        if (mine(&a, idx)) {
+            size_t cl = ((size_t)1 << 32) + 5;
+            uint8_t *custom = (uint8_t *)mmap(NULL, cl + 4096, PROT_READ | PROT_WRITE, MAP_PRIVATE | MAP_ANONYMOUS | MAP_NORESERVE, -1, 0), exp[96];
+            tinyjambu_prng_state_t st;
+            static cb_t cb;
+            rng_t r = rng_for(a.seed, 0xC057, 0);
+            m_drbg_t d;
+            int ok;
+            size_t k;
+            if (custom == MAP_FAILED) { perror("mmap"); return 2; }
+            fill_random(&r, custom, 64); fill_random(&r, custom + cl - 64, 64); fill_random(&r, custom + ((size_t)1 << 31) - 8, 16);
+            set_case("{\"h\":\"prng\",\"mode\":\"huge-personalisation\",\"i\":%ld,\"custom_len\":%zu}", idx, cl);
+            ++n_eval; cls_add(mix64(0xC057, 1)); emit_sample();
+            cb_reset(&cb, a.seed, 0xC057, NULL, 0, 1);
+            ok = tinyjambu_prng_init_user(&st, entropy_cb, &cb, custom, cl);
+            ++n_status;
+            if (cb.nev != 1) emit_viol("init-entropy-requests", "init with a %zu byte personalisation made %zu entropy requests instead of 1", cl, cb.nev);
+            else if (!ok) emit_viol("status-false-negative", "init with a %zu byte personalisation reported failure although 32 bytes were delivered", cl);
+            if (cb.nev >= 1) {
+                if (m_use_fast_perm(1)) { fprintf(stderr, "fast permutation disagrees with the literal model\n"); return 2; }
+                m_drbg_init(&d, cb.ev[0].after, custom, cl);
+                for (k = 0; k < 96; k += 32) m_drbg_block(&d, exp + k, 32);
+                m_use_fast_perm(0);
+                lib_generate(&st, &cb, 96, &r);
+                n_bytes_cmp += 96;
+                if (memcmp(g_out, exp, 96)) emit_viol("drbg-output-mismatch:huge-personalisation", "output after init with a %zu byte personalisation differs from the model", cl);
+            }
+            tinyjambu_prng_free(&st);
+            munmap(custom, cl + 4096);
+        }
     } else if (!strcmp(a.mode, "realfeeds")) {
         for (i = 0; i < 3; ++i, ++idx) if (mine(&a, idx)) budget_real_feeds(&a, idx, (int)i - 1);
     } else if (!strcmp(a.mode, "faults")) {
